@@ -296,8 +296,20 @@ def main():
             for sa in shapes:
                 units.append((op, sa, None, ofc, seed, cvc5_rate, timeout_ms))
     random.Random(seed).shuffle(units)
+    import kani_run
+    kh = kani_run.start(jobs=5, tag='C03', harnesses=['checked_add_matches_i128', 'checked_sub_matches_i128', 'checked_mul_matches_i128', 'checked_neg_matches_spec',
+                                                       'checked_div_rem_classification', 'checked_div_rem_values_small'])
     results = checklib.run_units(checklib.safe_worker(unit), units)
-    checklib.finish(PID, results, t0=t0, replay_fn=replay_ce, exhaustive=False,
+    kres = kani_run.join(kh)
+    if kres.get('ran'):
+        kr = checklib.UnitResult('kani kernel harnesses')
+        kr.obligations = kres.get('total') or 0
+        kr.discharged = kres.get('verified') or 0
+        kr.samples.append(dict(unit='Kani on compiled code: <i64 as EvalexprInt>::checked_{add,sub,mul,neg} equal the i128 result or the dedicated error; div/rem error classification', harnesses=kres.get('harnesses')))
+        if not kres.get('ok'):
+            kr.inconclusive.append('Kani did not verify every kernel harness: %s' % {k: kres.get(k) for k in ('exit', 'verified', 'failed', 'total', 'failed_checks', 'vacuous_cover')})
+        results.append(kr)
+    checklib.finish(PID, results, t0=t0, replay_fn=replay_ce, exhaustive=False, extra=dict(kani=kres),
                     rule='one symbolic run of Operator::eval per (operator, operand shape pair, overflow-check setting); every payload '
                          '(2x64 bit ints, f64s, bools, chars) is a solver variable; a path is non-trivial when its path condition '
                          'mentions a free variable; one obligation per path: PC => outcome equals the reference term',
